@@ -972,6 +972,17 @@ def _audit_worker(job):
             if not d <= _TOL["route"]:
                 impl.append((f"state:reused-instance:{key}", "an instance that evaluated other molecules before gives other "
                              f"weights than a fresh one (diff {d:.3e})", case))
+            # the caller's OWN atomic-number array, edited in place between two calls on one instance (other elements
+            # first, then this molecule's): what is evaluated is the molecule the array describes NOW
+            zz = z_other.copy()
+            routes(sh, pts[:3], atc, zz)
+            zz[...] = z
+            v, _ = routes(sh, pts, atc, zz)
+            d = float(np.max(np.abs(v["call"] - got["call"]))) if "call" in v else float("inf")
+            mx["state"] = max(mx["state"], d if np.isfinite(d) else 0.0)
+            if not d <= _TOL["route"]:
+                impl.append((f"state:reused-instance:atnums-edited-in-place:{key}", "an instance called again after the caller edited "
+                             f"its atomic-number array in place still uses the elements of the earlier call (diff {d:.3e})", case))
             if first is None:
                 first = (order, atc, z, pts, got["call"], key, case)
             custom = _becke(order, {int(v_): 7.7 + 0.1 * i for i, v_ in enumerate(sorted(set(z.tolist())))})
